@@ -177,11 +177,26 @@ def run(ctx):
                     mats_r = [rmat(i, dims[k], dims[k + 1], base, shared, allow_num=False) for k in range(nf)]
                     mats_i = [rmat(i, dims[k], dims[k + 1], base, shared, allow_num=False) for k in range(nf)]
                     mats = []
-                    for ar, ai in zip(mats_r, mats_i):
+                    # mixed operand lists: some factors are real observable matrices (their imaginary part is exactly zero)
+                    cm_count = ctx.dist.get("op:cmatmul", 0)
+                    if cm_count < 4:      # stratified: real factor first / complex first / alternating / all complex
+                        real_f = [[k_ % 2 == 0 for k_ in range(nf)], [k_ % 2 == 1 for k_ in range(nf)], [k_ == 0 for k_ in range(nf)], [False] * nf][cm_count]
+                    else:
+                        real_f = [rng.random() < 0.35 for _ in range(nf)]
+                    if all(real_f):
+                        real_f[rng.randrange(nf)] = False
+                    for k_, (ar, ai) in enumerate(zip(mats_r, mats_i)):
+                        if real_f[k_]:
+                            mats.append(ar)
+                            mats_i[k_] = np.zeros(ar.shape, dtype=object)
+                            for idx in np.ndindex(ar.shape):
+                                mats_i[k_][idx] = 0.0
+                            continue
                         c = np.empty(ar.shape, dtype=object)
                         for idx in np.ndindex(ar.shape):
                             c[idx] = pe.CObs(ar[idx], ai[idx])
                         mats.append(c)
+                    ctx.count("cmatmul real factors: %d of %d" % (sum(real_f), nf))
                     res = pe.linalg.matmul(*mats)
                     rr = np.vectorize(lambda z: z.real, otypes=[object])(res)
                     ri = np.vectorize(lambda z: z.imag, otypes=[object])(res)
